@@ -3,15 +3,16 @@ package c11
 
 import (
 	"fmt"
+	"math"
 	"sort"
 	"strings"
 	"testing"
 	"time"
 
-	m20 "github.com/metrics20/go-metrics20/carbon20"
 	"github.com/grafana/carbon-relay-ng/aggregator"
 	"github.com/grafana/carbon-relay-ng/matcher"
 	"github.com/grafana/carbon-relay-ng/validate"
+	m20 "github.com/metrics20/go-metrics20/carbon20"
 	"pgregory.net/rapid"
 
 	"verifharness/internal/aggref"
@@ -26,14 +27,14 @@ func TestMain(m *testing.M) { h.Init(); ev.Main(m) }
 type aggTpl struct{ regex, fmt string }
 
 var aggTpls = []aggTpl{
-	{`^foo\.(.*)$`, "foo.agg.$1"},        // output matches its own regex
-	{`^foo\.`, "bar.total"},              // feeds the ^bar\. rule by name
-	{`^bar\.(\w+)`, "baz.$1"},            //
-	{`(.*)`, "all.$1"},                   // matches everything, including its own output
-	{`\.cpu$`, "agg.cpu!bad..name"},      // output would not pass strict validation
-	{`^srv\.([a-z]+)\.`, "srv.$1.sum"},   // output matches its own regex
-	{`^baz\.`, "foo.fromBaz"},            // closes a cycle foo -> bar -> baz -> foo by name
-	{`total$`, "grand.total"},            // self-matching by suffix
+	{`^foo\.(.*)$`, "foo.agg.$1"},      // output matches its own regex
+	{`^foo\.`, "bar.total"},            // feeds the ^bar\. rule by name
+	{`^bar\.(\w+)`, "baz.$1"},          //
+	{`(.*)`, "all.$1"},                 // matches everything, including its own output
+	{`\.cpu$`, "agg.cpu!bad..name"},    // output would not pass strict validation
+	{`^srv\.([a-z]+)\.`, "srv.$1.sum"}, // output matches its own regex
+	{`^baz\.`, "foo.fromBaz"},          // closes a cycle foo -> bar -> baz -> foo by name
+	{`total$`, "grand.total"},          // self-matching by suffix
 }
 
 var namePool = []string{"foo.a", "foo.b.cpu", "foo.agg.a", "bar.x", "bar.total", "srv.a.cpu", "srv.b.mem", "srv.a.sum", "baz.q", "other", "all.foo.a", "x.total", "grand.total", "foo.fromBaz"}
@@ -138,6 +139,7 @@ func TestPropAggregateBypass(t *testing.T) {
 		selfFeeding, droprawPrePassRegexReject := false, false
 		rounds := rapid.IntRange(1, 3).Draw(t, "rounds")
 		modded := false
+		nanSeen := false
 		totalAggLines := 0
 		c0 := h.ReadTableCounters()
 		var wantUnroutable, wantBlack int64
@@ -147,6 +149,10 @@ func TestPropAggregateBypass(t *testing.T) {
 			for i := 0; i < nl; i++ {
 				name := rapid.SampledFrom(namePool).Draw(t, "name")
 				v := rapid.SampledFrom(vals).Draw(t, "val")
+				if (fun == "count" || fun == "last") && rapid.IntRange(0, 9).Draw(t, "nan") == 0 {
+					v = math.NaN() // a legal value at every validation level; what is withheld depends on the name only
+					nanSeen = true
+				}
 				ts := now - int64(rapid.IntRange(0, 50).Draw(t, "age"))
 				line := fmt.Sprintf("%s %v %d", name, v, ts)
 				nraw++
@@ -261,7 +267,7 @@ func TestPropAggregateBypass(t *testing.T) {
 				c1.In, c1.Invalid, c1.Blacklist, c1.Unroutable, nraw, wantBlack, wantUnroutable, m, hist)
 		}
 		rec.Case(m.String()+" "+strings.Join(hist, ","), (selfFeeding && totalAggLines > 0) || droprawPrePassRegexReject,
-			fmt.Sprintf("self-or-chain-feeding=%v", selfFeeding), fmt.Sprintf("dropraw-prefilter-pass-regex-reject=%v", droprawPrePassRegexReject), fmt.Sprintf("agglines>0=%v", totalAggLines > 0), fmt.Sprintf("route-filter-changed-between-rounds=%v", modded))
+			fmt.Sprintf("self-or-chain-feeding=%v", selfFeeding), fmt.Sprintf("dropraw-prefilter-pass-regex-reject=%v", droprawPrePassRegexReject), fmt.Sprintf("agglines>0=%v", totalAggLines > 0), fmt.Sprintf("route-filter-changed-between-rounds=%v", modded), fmt.Sprintf("NaN-value=%v", nanSeen))
 	})
 }
 
